@@ -246,6 +246,8 @@ class Logix( Message_Router ):
             "Attribute %r initial element invalid: %r" % ( attribute, (beg, end) )
         assert elm <= cnt, \
             "Attribute %r elements requested invalid: %r" % ( attribute, elm )
+        assert endactual <= cnt, \
+            "Attribute %r elements requested extend beyond end: %r" % ( attribute, (index[0], endactual) )
         assert beg < end, \
             "Attribute %r ending element before beginning: %r" % ( attribute, (beg, end) )
         return (beg,end,endactual,offremains,max_size)
